@@ -171,6 +171,8 @@ def run_driver(binary, cases_path, log_path, thorough=False, timeout=3600):
     all_cases = {}
     start_from = None
     restarts = 0
+    hangs = 0
+    aborted = [False]
     err_path = log_path + '.stderr'
     while True:
         cmd = [binary]
@@ -214,11 +216,20 @@ def run_driver(binary, cases_path, log_path, thorough=False, timeout=3600):
                 cl.vios = [(i, (key if k.startswith('sanitizer/') or k == 'crash/abort' else k), d) for (i, k, d) in cl.vios]
         start_from = last + 1
         restarts += 1
+        if any(k == 'hang' for (_i, k, _d) in cl.vios):
+            hangs += 1
+            if hangs >= 4:
+                # every further hanging case would cost another watchdog period: the verdict is
+                # already "violated", stop this batch here
+                aborted[0] = True
+                break
         if restarts > 2000:
             raise HarnessFailure('too many worker deaths')
     for p in (err_path,):
         if os.path.exists(p):
             os.unlink(p)
+    if aborted[0]:
+        all_cases['aborted'] = True
     return all_cases
 
 
@@ -232,7 +243,7 @@ OWNERS = [
     ('c02/', {'C02'}),
     ('leak/parse-reject', {'C03', 'C01'}),
     ('leak/parse-print-delete', {'C01', 'C07'}),
-    ('prealloc/differs', {'C09', 'C05', 'C01'}),
+    ('prealloc/differs', {'C09', 'C05', 'C01', 'C04'}),
     ('prealloc/', {'C09'}),
     ('print/buffered', {'C04', 'C05'}),
     ('print/', {'C04', 'C05', 'C01'}),
@@ -441,9 +452,14 @@ def run_batch(binary, flavour, cases, workdir, tag, thorough=False):
             for p in (cpath, lpath, lpath + '.stderr'):
                 if os.path.exists(p):
                     os.unlink(p)
+    aborted = logs.pop('aborted', False)
     missing = [c[0] for c in cases if c[0] not in logs]
-    if missing:
+    if missing and not aborted:
         raise HarnessFailure('cases without log records: %s' % missing[:5])
+    for cid in missing:
+        cl = CaseLog(cid)       # not run: the batch was cut short after repeated hangs
+        cl.died = True
+        logs[cid] = cl
     return logs
 
 
